@@ -138,6 +138,11 @@ COMBINATORS = {
     "option::Option::<T>::unwrap_or_else": (OPTION, {"Some": ("payload",), "None": ("call0",)}),
     "option::Option::<T>::ok_or_else": (OPTION, {"Some": ("keep", RESULT, "Ok"), "None": ("wrapcall0", RESULT, "Err")}),
     "bool::<impl bool>::then": ("bool", {"true": ("wrapcall0", OPTION, "Some"), "false": ("unit", OPTION, "None")}),
+    "option::Option::<T>::map_or": (OPTION, {"Some": ("call",), "None": ("default",)}),
+    "option::Option::<T>::is_some_and": (OPTION, {"Some": ("call",), "None": ("false",)}),
+    "option::Option::<T>::is_none_or": (OPTION, {"Some": ("call",), "None": ("true",)}),
+    "result::Result::<T, E>::is_ok_and": (RESULT, {"Ok": ("call",), "Err": ("false",)}),
+    "result::Result::<T, E>::map_or": (RESULT, {"Ok": ("call",), "Err": ("default",)}),
 }
 VIDX = {(RESULT, "Ok"): 0, (RESULT, "Err"): 1, (OPTION, "None"): 0, (OPTION, "Some"): 1}
 
@@ -176,13 +181,17 @@ def expand_combinators(prog, d):
         if b["cleanup"]:
             continue
         t = b["term"]
-        if t["k"] != "call" or t["target"] < 0 or len(t["args"]) != 2:
+        if t["k"] != "call" or t["target"] < 0 or len(t["args"]) not in (2, 3):
             continue
         c = _callee(t)
         key = next((k for k in COMBINATORS if c.endswith(k)), None)
         if key is None:
             continue
-        recv, fop = t["args"]
+        has_default = any(a[0] == "default" for a in COMBINATORS[key][1].values())
+        if (len(t["args"]) == 3) != has_default:
+            continue
+        recv, fop = t["args"][0], t["args"][-1]
+        default_op = t["args"][1] if has_default else None
         if recv.get("k") not in ("copy", "move"):
             continue
         fdef = _closure_def(blocks, fop)
@@ -257,6 +266,10 @@ def expand_combinators(prog, d):
                 nb["stmts"].append({"place": dest, "rv": {"k": "use", "op": {"k": "move", "place": pay}}, "line": line})
             elif kind == "unit":
                 nb["stmts"].append({"place": dest, "rv": agg(act[1], act[2], []), "line": line})
+            elif kind == "default":
+                nb["stmts"].append({"place": dest, "rv": {"k": "use", "op": default_op}, "line": line})
+            elif kind in ("true", "false"):
+                nb["stmts"].append({"place": dest, "rv": {"k": "use", "op": {"k": "const", "ty": "bool", "bits": "1" if kind == "true" else "0", "size": 1, "dbg": kind}}, "line": line})
         # a following `?`: arms whose class is known get their own copy of the branch/switch chain
         chain = Inliner._try_chain(None, blocks, target, dest["local"]) if not dest["proj"] else None
         if chain is not None:
